@@ -882,7 +882,8 @@ class _MIPS32_ELF(ABI):
         return self.get_register("sp")
 
     def temporary_label_prefix(self) -> str:
-        return ".L"
+        # The assembler only treats "$" labels as temporary for MIPS (o32).
+        return "$L"
 
     def default_dwarf_eh_return_column(self) -> int:
         return 32
